@@ -7,18 +7,21 @@ W=/tmp/mv.$$
 git -C /repo worktree add -q --detach $W HEAD || exit 2
 trap 'git -C /repo worktree remove --force $W >/dev/null 2>&1; rm -rf $W' EXIT
 demo=$(ls $D/*_test.go 2>/dev/null | head -1)
-run=$(grep -o -- '-run [A-Za-z0-9_|^$]*' $D/DEMO.txt | head -1 | awk '{print $2}')
-pkg=./knx/
 [ -z "$demo" ] && { echo "RESULT $D nodemo"; exit 0; }
-cp $demo $W/knx/zz_seeded_demo_test.go
+run=$(grep -o -- '-run [A-Za-z0-9_|^$]*' $D/DEMO.txt | head -1 | awk '{print $2}')
+pkgname=$(grep -m1 '^package ' "$demo" | awk '{print $2}' | sed 's/_test$//')
+case "$pkgname" in knx) sub=knx;; knxnet) sub=knx/knxnet;; dpt) sub=knx/dpt;; cemi) sub=knx/cemi;; util) sub=knx/util;; *) sub=knx;; esac
+pkg=./$sub/
+[ -z "$demo" ] && { echo "RESULT $D nodemo"; exit 0; }
+cp $demo $W/$sub/zz_seeded_demo_test.go
 cd $W
 base=$(go test -vet=off -count=1 -run "$run" $pkg 2>&1 | tail -3 | tr '\n' ' ')
 case "$base" in *ok*) b=pass;; *) b="FAIL($base)";; esac
-rm -f $W/knx/zz_seeded_demo_test.go
+rm -f $W/$sub/zz_seeded_demo_test.go
 if ! git apply $D/patch.diff 2>/dev/null; then echo "RESULT $D demo_on_head=$b patch=DOES-NOT-APPLY"; exit 0; fi
 suite=$(go test -vet=off -count=1 ./... 2>&1 | grep -c "^FAIL\|^---")
 if [ "$suite" != 0 ]; then suite=$(go test -vet=off -count=1 ./... 2>&1 | grep -c "^FAIL\|^---"); fi
-cp $demo $W/knx/zz_seeded_demo_test.go
+cp $demo $W/$sub/zz_seeded_demo_test.go
 mut=$(timeout 120 go test -vet=off -count=1 -run "$run" $pkg 2>&1 | tail -4 | tr '\n' ' ')
 case "$mut" in *FAIL*|*panic*) m=fail;; *ok*) m="PASS(unexpected)";; *) m="?($mut)";; esac
 echo "RESULT $D demo_on_head=$b patch=applies suite_fail_lines=$suite demo_with_patch=$m run=$run"
